@@ -1226,12 +1226,13 @@ Lemma policy_stage_inv : forall x pol cid fam p a nh,
   policy_stage x pol cid fam p = Some (a, nh) ->
   exists a1,
     pol (p_src p) (fst (pre_policy_defaults x (p_attrs p) (p_nh p) fam (src_is_local (p_src p))))
-        (snd (pre_policy_defaults x (p_attrs p) (p_nh p) fam (src_is_local (p_src p)))) (p_nh p) = Some (a1, nh)
+        (snd (pre_policy_defaults x (p_attrs p) (p_nh p) fam (src_is_local (p_src p)))) (p_nh p)
+        (role_eqb (x_role x) ConfedEbgp) = Some (a1, nh)
     /\ a = reflect_stage cid (p_src p) a1.
 Proof.
   intros x pol cid fam p a nh H. unfold policy_stage in H.
   destruct (pre_policy_defaults x (p_attrs p) (p_nh p) fam (src_is_local (p_src p))) as [a0 nh0] eqn:E.
-  cbn [fst snd]. destruct (pol (p_src p) a0 nh0 (p_nh p)) as [[a1 nh1]|] eqn:Ep; [|discriminate].
+  cbn [fst snd]. destruct (pol (p_src p) a0 nh0 (p_nh p) (role_eqb (x_role x) ConfedEbgp)) as [[a1 nh1]|] eqn:Ep; [|discriminate].
   inversion H; subst. exists a1. split; reflexivity.
 Qed.
 
@@ -1266,7 +1267,7 @@ Proof.
 Qed.
 
 Lemma filter_only_decodable : forall pol, filter_only pol -> policy_keeps_decodable pol.
-Proof. intros pol H s a nh onh a' nh' Hd Hp. apply H in Hp. inversion Hp; subst. exact Hd. Qed.
+Proof. intros pol H s a nh onh ic a' nh' Hd Hp. apply H in Hp. inversion Hp; subst. exact Hd. Qed.
 
 Lemma path_of_transfer : forall l1 l2 pin,
   find_code AS_PATH l2 = find_code AS_PATH l1 -> path_of l1 pin -> path_of l2 pin.
@@ -1436,7 +1437,7 @@ Theorem C09_ebgp_any_policy : forall x pol emax raddr cid c e d pid nh out s,
        /\ ((p_nh p = None -> is_flowspec (c_family c) = false) ->
            (forall n, p_nh p = Some n -> src_is_local s = true -> ip_unspecified (nh_addr n) = true) ->
            nh0 = Some (self_nexthop x))
-       /\ pol s a0 nh0 (p_nh p) = Some (a1, nh).
+       /\ pol s a0 nh0 (p_nh p) (role_eqb (x_role x) ConfedEbgp) = Some (a1, nh).
 Proof.
   intros x pol emax raddr cid c e d pid nh out s Hr (r & H & Hin).
   destruct (reach_origin _ _ _ _ _ _ _ _ _ _ _ _ _ _ H Hin) as (p & a & Hp & Hv & Hs & Hst & Hx).
@@ -1600,7 +1601,7 @@ Proof. exact export_attrs_unknown. Qed.
 
 (* ================================================================ non-vacuity: concrete states that meet the hypotheses *)
 Lemma filter_only_no_policy : filter_only no_policy.
-Proof. intros s a nh onh r H. unfold no_policy in H. inversion H. reflexivity. Qed.
+Proof. intros s a nh onh ic r H. unfold no_policy in H. inversion H. reflexivity. Qed.
 
 Definition ex_path_segs : list seg := [(3, [65010]); (2, [65002; 65003]); (1, [64512; 64513])].
 Definition ex_attrs : list attr :=
@@ -1858,8 +1859,8 @@ Example ex_llgr_scenario : exists nh1 a1 s1 nh2 a2 s2 e,
 Proof. do 7 eexists. vm_compute. reflexivity. Qed.
 
 (* ================================================================ real export policies: next-hop and MED actions *)
-Lemma stmt_policy_inv : forall x raddr st default s a nh onh a1 nh1,
-  stmt_policy x raddr st default s a nh onh = Some (a1, nh1) ->
+Lemma stmt_policy_inv : forall x raddr st default s a nh onh ic a1 nh1,
+  stmt_policy x raddr st default s a nh onh ic = Some (a1, nh1) ->
   a1 = match st_med st with
        | None => a
        | Some act =>
@@ -1873,14 +1874,14 @@ Lemma stmt_policy_inv : forall x raddr st default s a nh onh a1 nh1,
                 end)]
        end.
 Proof.
-  intros x raddr st default s a nh onh a1 nh1 H. unfold stmt_policy in H.
-  destruct (match st_disp st with DPass => default | d => d end); inversion H; reflexivity.
+  intros x raddr st default s a nh onh ic a1 nh1 H. unfold stmt_policy in H.
+  destruct (stmt_rejects st default); inversion H. unfold stmt_attrs. destruct (st_med st); reflexivity.
 Qed.
 
 Lemma stmt_policy_keeps_decodable : forall x raddr st default,
   policy_keeps_decodable (stmt_policy x raddr st default).
 Proof.
-  intros x raddr st default s a nh onh a' nh' Hd H. apply stmt_policy_inv in H. subst a'.
+  intros x raddr st default s a nh onh ic a' nh' Hd H. apply stmt_policy_inv in H. subst a'.
   destruct (st_med st) as [act|]; [|exact Hd].
   apply (decodable_ext a); [exact Hd|]. intros y Hy. apply in_app_or in Hy. destruct Hy as [Hy|[Hy|[]]].
   - apply filter_In in Hy. tauto.
@@ -2306,3 +2307,205 @@ Example ex_history : exists r v,
                ex_change (SrcPeer (ex_peer Ebgp 65003 true))] ENone = Ok r
   /\ view_after (fst r) 1 0 None = Some v.
 Proof. do 2 eexists. split; vm_compute; reflexivity. Qed.
+
+(* ================================================================ export policies that can panic *)
+Lemma policy_stage_r_lower : forall x polr cid fam p o,
+  policy_stage_r x polr cid fam p = Ok o -> policy_stage x (lower_policy polr) cid fam p = o.
+Proof.
+  intros x polr cid fam p o H. unfold policy_stage_r in H. unfold policy_stage, lower_policy.
+  destruct (pre_policy_defaults x (p_attrs p) (p_nh p) fam (src_is_local (p_src p))) as [a0 nh0].
+  destruct (polr (p_src p) a0 nh0 (p_nh p) (role_eqb (x_role x) ConfedEbgp)) as [[[a1 nh1]|]|]; cbn [rbind] in H;
+    try discriminate; inversion H; reflexivity.
+Qed.
+
+Lemma top_n_r_lower : forall x polr cid fam cand top,
+  top_n_r x polr cid fam cand = Ok top ->
+  flat_map (fun p => match policy_stage x (lower_policy polr) cid fam p with
+                     | None => []
+                     | Some (a, nh) => [(p_lpid p, llgr_stage p a, nh, p_src p)]
+                     end) cand = top.
+Proof.
+  intros x polr cid fam. induction cand as [|p t IH]; intros top H.
+  - cbn in H. inversion H. reflexivity.
+  - cbn [top_n_r] in H. destruct (policy_stage_r x polr cid fam p) as [o|] eqn:Eo; [|discriminate].
+    cbn [rbind] in H. destruct (top_n_r x polr cid fam t) as [r|] eqn:Er; [|discriminate]. cbn [rbind] in H.
+    inversion H; subst top. cbn [flat_map]. rewrite (policy_stage_r_lower _ _ _ _ _ _ Eo), (IH r eq_refl).
+    destruct o as [[a nh]|]; reflexivity.
+Qed.
+
+(* a call that survives a panicking policy is a call with the policy that answers on the
+   inputs it survives: everything proved about process_change carries over *)
+Theorem C09_process_change_r_lower : forall fixed x polr emax raddr cid c e r,
+  process_change_r fixed x polr emax raddr cid c e = Ok r ->
+  process_change_v fixed x (lower_policy polr) emax raddr cid c e = Ok r.
+Proof.
+  intros fixed x polr emax raddr cid c e r H. unfold process_change_r in H. unfold process_change_v.
+  destruct (emax =? 1).
+  - destruct (negb (c_best_changed c) && _); [exact H|].
+    destruct (c_paths c) as [|best rest]; [exact H|].
+    destruct (visible x raddr cid best); [|exact H].
+    destruct (policy_stage_r x polr cid (c_family c) best) as [o|] eqn:Eo; [|discriminate].
+    rewrite (policy_stage_r_lower _ _ _ _ _ _ Eo). cbn [rbind] in H. destruct o as [[a nh]|]; exact H.
+  - destruct (negb (c_any_changed c)); [exact H|].
+    destruct (top_n_r x polr cid (c_family c) (firstn (N.to_nat emax) (filter (visible x raddr cid) (c_paths c))))
+      as [top|] eqn:Et; [|discriminate].
+    cbn [rbind] in H. rewrite (top_n_r_lower _ _ _ _ _ _ Et). exact H.
+Qed.
+
+Lemma policy_stage_r_lift : forall x pol cid fam p,
+  policy_stage_r x (lift_policy pol) cid fam p = Ok (policy_stage x pol cid fam p).
+Proof.
+  intros x pol cid fam p. unfold policy_stage_r, policy_stage, lift_policy.
+  destruct (pre_policy_defaults x (p_attrs p) (p_nh p) fam (src_is_local (p_src p))) as [a0 nh0].
+  cbn [rbind]. destruct (pol (p_src p) a0 nh0 (p_nh p) (role_eqb (x_role x) ConfedEbgp)) as [[a1 nh1]|]; reflexivity.
+Qed.
+
+Lemma top_n_r_lift : forall x pol cid fam cand,
+  top_n_r x (lift_policy pol) cid fam cand
+  = Ok (flat_map (fun p => match policy_stage x pol cid fam p with
+                           | None => []
+                           | Some (a, nh) => [(p_lpid p, llgr_stage p a, nh, p_src p)]
+                           end) cand).
+Proof.
+  intros x pol cid fam. induction cand as [|p t IH]; [reflexivity|].
+  cbn [top_n_r flat_map]. rewrite policy_stage_r_lift, IH. cbn [rbind].
+  destruct (policy_stage x pol cid fam p) as [[a nh]|]; reflexivity.
+Qed.
+
+(* and with a policy that never panics the two functions are the same *)
+Theorem C09_process_change_r_lift : forall fixed x pol emax raddr cid c e,
+  process_change_r fixed x (lift_policy pol) emax raddr cid c e = process_change_v fixed x pol emax raddr cid c e.
+Proof.
+  intros fixed x pol emax raddr cid c e. unfold process_change_r, process_change_v.
+  destruct (emax =? 1).
+  - destruct (negb (c_best_changed c) && _); [reflexivity|].
+    destruct (c_paths c) as [|best rest]; [reflexivity|].
+    destruct (visible x raddr cid best); [|reflexivity].
+    rewrite policy_stage_r_lift. cbn [rbind]. destruct (policy_stage x pol cid (c_family c) best) as [[a nh]|]; reflexivity.
+  - destruct (negb (c_any_changed c)); [reflexivity|]. rewrite top_n_r_lift. reflexivity.
+Qed.
+
+(* ================================================================ the as-prepend action and the export rewrite *)
+Lemma repeat_shift : forall A (x : A) k l, repeat x k ++ x :: l = x :: repeat x k ++ l.
+Proof. intros A x. induction k as [|k IH]; intro l; [reflexivity|]. cbn [repeat app]. rewrite IH. reflexivity. Qed.
+
+Lemma prepend_n_is_path : forall k ty asn a p,
+  is_path a p -> 1 <= ty <= 4 -> asn < 4294967296 ->
+  exists b q, prepend_n k ty asn a = Ok b /\ is_path b q /\ tflat q = repeat (ty, asn) k ++ tflat p.
+Proof.
+  induction k as [|k IH]; intros ty asn a p Hp Hty Ha.
+  - exists a, p. auto.
+  - destruct (as_path_prepend_is_path ty asn a p Hp Hty Ha) as (b1 & asns & rest & E1 & Hp1 & F1).
+    destruct (IH ty asn b1 _ Hp1 Hty Ha) as (b & q & E & Hq & F).
+    exists b, q. cbn [prepend_n]. rewrite E1. cbn [rbind]. split; [exact E|]. split; [exact Hq|].
+    rewrite F, F1. cbn [repeat app]. apply repeat_shift.
+Qed.
+
+Lemma tflat_strip : forall q,
+  tflat (strip_confed_spec q) = filter (fun ta => negb ((fst ta =? 3) || (fst ta =? 4))) (tflat q).
+Proof.
+  induction q as [|[t asns] q IH]; [reflexivity|].
+  rewrite strip_confed_spec_cons. unfold tflat at 2. cbn [flat_map]. rewrite filter_app. fold (tflat q). rewrite <- IH.
+  unfold confed_seg. cbn [fst snd].
+  assert (Hm : forall b : bool, filter (fun ta : N * N => negb ((fst ta =? 3) || (fst ta =? 4))) (map (fun a => (t, a)) asns)
+                         = if negb ((t =? 3) || (t =? 4)) then map (fun a => (t, a)) asns else []).
+  { intros _. induction asns as [|a asns IHa]; [destruct (negb _); reflexivity|].
+    cbn [map filter fst]. rewrite IHa. destruct (negb ((t =? 3) || (t =? 4))); reflexivity. }
+  rewrite (Hm true). destruct ((t =? 3) || (t =? 4)); cbn [negb]; [reflexivity|].
+  unfold tflat. cbn [flat_map fst snd]. reflexivity.
+Qed.
+
+Lemma filter_repeat_seq : forall asn k,
+  filter (fun ta : N * N => negb ((fst ta =? 3) || (fst ta =? 4))) (repeat (2, asn) k) = repeat (2, asn) k.
+Proof. intros asn. induction k as [|k IH]; [reflexivity|]. cbn [repeat filter fst]. cbn. f_equal. exact IH. Qed.
+
+Lemma stmt_attrs_find_other : forall st a c, c <> MED -> find_code c (stmt_attrs st a) = find_code c a.
+Proof.
+  intros st a c Hc. unfold stmt_attrs. destruct (st_med st); [|reflexivity].
+  rewrite find_code_app. rewrite find_code_filter by (intros y Hy; apply negb_true_iff; apply N.eqb_neq; congruence).
+  destruct (find_code c a); [reflexivity|]. rewrite find_code_cons. cbn [mk_val a_code].
+  assert (E : MED =? c = false) by (apply N.eqb_neq; congruence). rewrite E. reflexivity.
+Qed.
+
+(* apply_prepend on a decodable vector: the (first) AS_PATH is replaced by one that has
+   the AS k times in front, in a segment of the kind the receiver calls for *)
+Lemma apply_prepend_spec : forall ic pa attrs pin,
+  pa_left_most pa = false -> pa_asn pa < 4294967296 -> pa_repeat pa <> 0 ->
+  path_of attrs pin ->
+  exists a2 q, apply_prepend ic pa attrs = Ok a2 /\ path_of a2 (Some q)
+    /\ tflat q = repeat (if ic then 3 else 2, pa_asn pa) (N.to_nat (pa_repeat pa)) ++ tflat (segs_of pin).
+Proof.
+  intros ic pa attrs pin Hl Ha Hr Hpin. unfold apply_prepend.
+  apply N.eqb_neq in Hr. rewrite Hr, Hl.
+  assert (Hex : is_path (match find_code AS_PATH attrs with Some p => p | None => empty_as_path end) (segs_of pin)).
+  { destruct pin as [segs|]; cbn [path_of segs_of] in *.
+    - destruct Hpin as (a & Ea & Hp). rewrite Ea. exact Hp.
+    - rewrite Hpin. apply empty_as_path_is_path. }
+  assert (Hty : 1 <= (if ic then SEG_CONFED_SEQ else SEG_SEQ) <= 4) by (destruct ic; unfold SEG_CONFED_SEQ, SEG_SEQ; lia).
+  destruct (prepend_n_is_path (N.to_nat (pa_repeat pa)) _ (pa_asn pa) _ _ Hex Hty Ha) as (b & q & E & Hq & F).
+  cbn [rbind]. rewrite E. cbn [rbind]. eexists. exists q. split; [reflexivity|]. split.
+  - cbn [path_of]. exists b. split; [|exact Hq]. rewrite find_code_app.
+    assert (En : find_code AS_PATH (filter (fun t => negb (a_code t =? AS_PATH)) attrs) = None)
+      by (apply find_code_None; apply has_code_filter_out).
+    rewrite En. rewrite find_code_cons. destruct Hq as (Hc & _). rewrite Hc, N.eqb_refl. reflexivity.
+  - rewrite F. destruct ic; reflexivity.
+Qed.
+
+(* The as-prepend action of an export policy composes with the role rewrite as it must:
+   towards an eBGP peer the prepended copies sit, in an AS_SEQUENCE, between the local AS
+   and the path without its confederation segments; towards a confed-eBGP peer they sit
+   in the AS_CONFED_SEQUENCE behind the member AS (process_nlri_change passes
+   is_confed = (role == ConfedEbgp) to table::apply_export). *)
+Theorem C09_policy_prepend_then_export : forall x st pa default emax raddr cid c e r d pid nh out s,
+  wf_ctx x -> (x_role x = Ebgp \/ x_role x = ConfedEbgp) ->
+  pa_left_most pa = false -> pa_asn pa < 4294967296 -> pa_repeat pa <> 0 ->
+  (forall p, In p (c_paths c) -> decodable (p_attrs p)) ->
+  process_change_r true x (stmt_policy_r x raddr st (Some pa) default) emax raddr cid c e = Ok r ->
+  In (Reach d pid nh out s) (fst r) ->
+  exists p, In p (c_paths c) /\ s = p_src p /\
+    forall pin, path_of (p_attrs p) pin ->
+    exists segs', path_of out (Some segs') /\
+      tflat segs' =
+      if role_eqb (x_role x) ConfedEbgp
+      then (3, x_lasn x) :: repeat (3, pa_asn pa) (N.to_nat (pa_repeat pa)) ++ tflat (segs_of pin)
+      else (2, external_asn x) :: repeat (2, pa_asn pa) (N.to_nat (pa_repeat pa))
+                                 ++ tflat (strip_confed_spec (segs_of pin)).
+Proof.
+  intros x st pa default emax raddr cid c e r d pid nh out s Hx Hrole Hl Ha Hrep Hd H Hin.
+  apply C09_process_change_r_lower in H.
+  destruct (reach_origin _ _ _ _ _ _ _ _ _ _ _ _ _ _ H Hin) as (p & a & Hp & Hv & Hs & Hst & Hxp).
+  exists p. split; [exact Hp|]. split; [exact Hs|]. intros pin Hpin.
+  destruct (policy_stage_inv _ _ _ _ _ _ _ Hst) as (a1 & Hpol & Haa).
+  unfold lower_policy, stmt_policy_r in Hpol.
+  set (a0 := fst (pre_policy_defaults x (p_attrs p) (p_nh p) (c_family c) (src_is_local (p_src p)))) in *.
+  assert (Hpin0 : path_of (stmt_attrs st a0) pin).
+  { eapply path_of_transfer; [|exact Hpin]. rewrite stmt_attrs_find_other by discriminate.
+    unfold a0. apply pre_policy_find_other. discriminate. }
+  destruct (apply_prepend_spec (role_eqb (x_role x) ConfedEbgp) pa _ pin Hl Ha Hrep Hpin0) as (a2 & q & E2 & Hq & F).
+  rewrite E2 in Hpol. cbn [rbind] in Hpol. destruct (stmt_rejects st default); [discriminate|].
+  inversion Hpol; subst a1. clear Hpol.
+  assert (Hqa : path_of (llgr_stage p a) (Some q)).
+  { eapply path_of_transfer; [|exact Hq]. rewrite llgr_stage_find_other by discriminate. subst a.
+    apply reflect_stage_find_other; discriminate. }
+  destruct Hrole as [Hr|Hr].
+  - destruct (export_attrs_ebgp_spec x _ out (Some q) Hx Hr Hqa Hxp) as ((segs' & Hs' & Fs) & _).
+    exists segs'. split; [exact Hs'|]. rewrite Hr. cbn [role_eqb role_code N.eqb Pos.eqb].
+    rewrite Fs. cbn [segs_of]. rewrite tflat_strip, F. rewrite Hr. cbn [role_eqb role_code N.eqb Pos.eqb].
+    rewrite filter_app, filter_repeat_seq, <- tflat_strip. reflexivity.
+  - destruct (export_attrs_confed_spec x _ out (Some q) Hx Hr Hqa Hxp) as (rest & asns & Hs' & Fs).
+    exists ((3, x_lasn x :: asns) :: rest). split; [exact Hs'|]. rewrite Hr. cbn [role_eqb role_code N.eqb Pos.eqb].
+    rewrite Fs. cbn [segs_of]. rewrite F, Hr. reflexivity.
+Qed.
+
+Example ex_policy_prepend : exists r nh out segs',
+  process_change_r true (ex_ctx ConfedEbgp 65100)
+    (stmt_policy_r (ex_ctx ConfedEbgp 65100) (ip4 10 0 0 1) {| st_nh := None; st_med := None; st_disp := DAccept |}
+                   (Some {| pa_asn := 65009; pa_repeat := 2; pa_left_most := false |}) DReject)
+    1 (ip4 10 0 0 1) None (ex_change (SrcPeer (ex_peer Ebgp 65002 false))) ENone = Ok r
+  /\ In (Reach 1 0 nh out (SrcPeer (ex_peer Ebgp 65002 false))) (fst r)
+  /\ find_code AS_PATH out = Some (mk_bin AS_PATH 64 (encode_path segs'))
+  /\ tflat segs' = (3, 65001) :: (3, 65009) :: (3, 65009) :: tflat ex_path_segs.
+Proof.
+  eexists. eexists. eexists. exists [(3, [65001; 65009; 65009; 65010]); (2, [65002; 65003]); (1, [64512; 64513])].
+  split; [vm_compute; reflexivity|]. split; [left; reflexivity|]. split; reflexivity.
+Qed.
